@@ -39,10 +39,11 @@ void svt_verif_event(int kind, uint64_t a, uint64_t b, uint64_t c, uint64_t d)
 #define SVT_VERIF_EV_SRM_NEW 8 /* a=resource, b=object count, c=empty queue, d=full queue */
 #define SVT_VERIF_EV_SRM_FIFO 9 /* a=resource, b=fifo, c=0 producer-empty/1 consumer-full, d=index */
 #define SVT_VERIF_EV_SRM_WRAPPER 10 /* a=resource, b=wrapper, c=index */
-#define SVT_VERIF_EV_SEG_SB_START 20 /* a=picture number, b=tile group idx, c=segment index, d=sb index */
+#define SVT_VERIF_EV_SEG_SB_START 20 /* a=pcs, b=tile group idx | picture number<<16, c=segment index, d=x<<16|y (SB coordinates in the tile group) */
 #define SVT_VERIF_EV_SEG_SB_END 21
-#define SVT_VERIF_EV_SEG_ASSIGN 22 /* a=picture number, b=tile group idx, c=segment index, d=input type */
-#define SVT_VERIF_EV_SEG_PIC 23 /* a=picture number, b=tile group idx, c=(sb cols<<16|sb rows of tile group), d=(seg cols<<16|seg rows) */
+#define SVT_VERIF_EV_SEG_ASSIGN 22 /* a=pcs, b=tile group idx | picture number<<16, c=segment index */
+#define SVT_VERIF_EV_SEG_PIC 23 /* a=pcs, b=tile group idx | picture number<<16, c=(sb cols<<16|sb rows of tile group), d=(seg cols<<16|seg rows) */
+#define SVT_VERIF_EV_SEG_RESET 24 /* a=pcs, b=picture number: picture is re-encoded (recode loop) */
 #define SVT_VERIF_EV_DEC_TOOL 40 /* a=tool id, b=frame number, c=mi_row, d=mi_col */
 #define SVT_VERIF_EV_DEC_FRAME_HDR 41 /* a=field id, b=value */
 #else
